@@ -8,6 +8,26 @@ B == 200
 Batches == [b \in 1..((Len(All) + B - 1) \div B) |->
               [cases |-> [k \in 1..(IF b * B <= Len(All) THEN B ELSE Len(All) - (b - 1) * B) |->
                             [tpl |-> All[(b - 1) * B + k][1], msg |-> All[(b - 1) * B + k][2]]]]]
+(* lemmas about P itself (pure TLC): what must not matter does not matter, and defaults / templates mean what writing *)
+(* the values out means - so that P cannot be vacuous (open or rejecting everywhere)                                  *)
+LRows == HRows
+Plain == LoadMessages(MsgFile(HComment, LRows), <<>>)
+ASSUME Plain.kind = "ok" /\ Len(Plain.msgs) = 2 /\ Plain.msgs[1].circuit = x_c /\ Plain.msgs[2].circuit = x_d /\ Plain.msgs[2].prio = 3
+ASSUME \A h \in {HBlank, HSlashes, HDefault, HUpper} : LoadMessages(MsgFile(h, LRows), <<>>) = Plain            \* header spelling
+ASSUME \A d \in Decos : LoadMessages(Decorate(MsgFile(HComment, LRows), d), <<>>) = Plain                       \* comments, blank lines
+ASSUME LoadMessages(MsgFileTrim(HComment, LRows), <<>>) = Plain                                                  \* trailing empty cells
+ASSUME LET l == LoadMessages(MsgFile(HLevel, LRows), <<>>) IN                                                      \* level column
+       l.kind = "ok" /\ l.msgs[1].level = x_lv /\ l.msgs[2].level = x_l2
+ASSUME LET a == LoadMessages(MsgFile(HComment, <<BaseD, BaseR>>), <<>>)                                          \* defaults = written out
+           b == LoadMessages(MsgFile(HComment, <<Row(FALSE, x_r, x_c, E, x_a, E, E, x_h08, x_b509, <<48, 100, 48, 49>>, <<Gf>>)>>), <<>>)
+       IN a.kind = "ok" /\ a = b
+ASSUME LET t == LoadTemplates(TplFile(<<TRow(x_t, TG(x_UCH, x_p10, x_v, x_k), <<>>)>>))                           \* template = written out
+           a == LoadMessages(MsgFile(HComment, <<UseRow(<<G(x_f, E, x_t, E, E, E)>>)>>), t.T)
+           b == LoadMessages(MsgFile(HComment, <<UseRow(<<G(x_f, E, x_UCH, x_p10, x_v, x_k)>>)>>), <<>>)
+       IN t.kind = "ok" /\ a.kind = "ok" /\ a = b
+ASSUME LET F == Files(Thorough)                                                                                  \* P decides most of the domain
+           openT == {f \in F : LoadTemplates(f[1]).kind = "open"}
+       IN Cardinality(openT) * 10 < Cardinality(F)
 ASSUME ndJsonSerialize(IOEnv.VF_OUT, Batches)
 ASSUME PrintT(<<"VF", "GEN", Len(All)>> \o FamilySizes(Thorough))
 =============================================================================
